@@ -17,6 +17,11 @@ FN = "AbsoluteSequence.quantise_note_lengths"
 
 
 def check(ctx: Ctx) -> None:
+    _check(ctx)
+    _extra(ctx)
+
+
+def _check(ctx: Ctx) -> None:
     p = ctx.p
     fi = p.func(FN)
     ctx.analysed(fi)
@@ -240,3 +245,8 @@ def _block_of(n: ast.AST) -> list[ast.stmt]:
         if isinstance(b, list) and n in b:
             return b
     return [n]
+
+
+def _extra(ctx):
+    from ..engines.structure import argmin_rule
+    argmin_rule(ctx)
